@@ -801,8 +801,12 @@ impl Search for RangeConstraint {
 impl Search for AttributeName {
     fn search(&self, ctx: &dyn TokenAccess, searcher: &mut impl Searcher) -> SearchResult {
         // @TODO more
-        let AttributeName { name, .. } = self;
-        name.search(ctx, searcher)
+        let AttributeName { name, expr, .. } = self;
+        return_if_found!(name.search(ctx, searcher));
+        if let Some(expr) = expr {
+            return_if_found!(expr.search(ctx, searcher));
+        }
+        NotFound
     }
 }
 
